@@ -118,6 +118,8 @@ fn build_wasm(src: &str, with_scheduler: bool) -> Result<WasmBuilt, Vec<String>>
     engine.load_module(&out.bytes).map_err(|e| vec![format!("load: {e}")])?;
     let mut rt = WasmDspRuntime::new(engine, out.io_channels, out.dsp_state_skeleton.clone());
     rt.set_wasm_audioworkers(workers);
+    // what Driver::init does (LocalBufferDriver: 48 kHz)
+    rt.set_sample_rate(48000.0);
     rt.run_main().map_err(|e| vec![format!("main: {e}")])?;
     Ok(WasmBuilt { rt, skeleton: out.dsp_state_skeleton, io: out.io_channels, bytes: out.bytes })
 }
